@@ -174,9 +174,10 @@ theorem mapField_cells (fn : GQ → GQ) (rk : Kind → Kind) (keepUnit : Bool) (
     rw [hs, bproj_inRange _ _ hidx]
   · rw [hvalid i hi', ← (hc i hi).2]; rfl
 
-theorem ufuncWrap_ok (self : CF) (res : NDA GQ) (k : Kind) (g : CF) (h : ufuncWrap self res k = .ok g) :
+theorem ufuncWrap_ok (self : CF) (res : NDA GQ) (k : Kind) (valid : NDA Bool) (g : CF)
+    (h : ufuncWrap self res k valid = .ok g) :
     res.shape.dropLast = self.mesh.n ∧
-    mkField self.mesh (lastAx res.shape) (.arr res) k self.vdims none (some self.vmap) none = .ok g := by
+    mkField self.mesh (lastAx res.shape) (.arr res) k self.vdims (some valid) (some self.vmap) none = .ok g := by
   unfold ufuncWrap at h
   split at h
   · cases h
@@ -191,36 +192,39 @@ theorem ufuncWrap_ok (self : CF) (res : NDA GQ) (k : Kind) (g : CF) (h : ufuncWr
 theorem ufunc1_cells (fn : GQ → GQ) (rk : Kind → Kind) (n : List Nat) (f g : CF)
     (cf : List Nat → List GQ) (vf : List Nat → Bool) (hf : Cells n f cf vf)
     (h : ufunc1 fn rk f = .ok g) :
-    Cells n g (fun i => (cf i).map fn) (fun _ => true) ∧ g.mesh = f.mesh ∧ g.nvdim = f.nvdim := by
+    Cells n g (fun i => (cf i).map fn) vf ∧ g.mesh = f.mesh ∧ g.nvdim = f.nvdim := by
   unfold ufunc1 at h
-  obtain ⟨_, hmk⟩ := ufuncWrap_ok _ _ _ _ h
-  obtain ⟨hw, hn, hc⟩ := hf
-  obtain ⟨hs, hvs, hp⟩ := hw
-  have hr : f.mesh.n.length < (f.data.map fn).shape.length := by
-    show f.mesh.n.length < f.data.shape.length
-    rw [hs]; simp
-  have hlast : lastAx (f.data.map fn).shape = f.nvdim := by
-    show lastAx f.data.shape = f.nvdim
-    rw [hs, getLastD_append_single]
-  rw [hlast] at hmk
-  obtain ⟨hm, hnv, hwf, _, _, _, _, _, hdata, hvalid⟩ :=
-    mkField_arr f.mesh f.nvdim (f.data.map fn) _ _ none _ _ g hr (by intro v hv; cases hv) hmk
-  refine ⟨⟨hwf, by rw [hm]; exact hn, ?_⟩, hm, hnv⟩
-  intro i hi
-  have hi' : inRange f.mesh.n i = true := by rw [hn]; exact hi
-  refine ⟨?_, ?_⟩
-  · show cellOf g.data i g.nvdim = (cf i).map fn
-    rw [← (hc i hi).1, hnv]
-    unfold cellOf
-    rw [tab_map]
-    apply tab_congr
-    intro c hcc
-    have hidx : inRange (f.mesh.n ++ [f.nvdim]) (i ++ [c]) = true := by
-      rw [inRange_append_single]; exact ⟨hi', hcc⟩
-    rw [hdata _ hidx]
-    show fn (f.data.get (bproj f.data.shape (i ++ [c]))) = _
-    rw [hs, bproj_inRange _ _ hidx]
-  · rw [hvalid i hi']; rfl
+  split at h
+  · cases h
+  · obtain ⟨_, hmk⟩ := ufuncWrap_ok _ _ _ _ _ h
+    obtain ⟨hw, hn, hc⟩ := hf
+    obtain ⟨hs, hvs, hp⟩ := hw
+    have hr : f.mesh.n.length < (f.data.map fn).shape.length := by
+      show f.mesh.n.length < f.data.shape.length
+      rw [hs]; simp
+    have hlast : lastAx (f.data.map fn).shape = f.nvdim := by
+      show lastAx f.data.shape = f.nvdim
+      rw [hs, getLastD_append_single]
+    rw [hlast] at hmk
+    obtain ⟨hm, hnv, hwf, _, _, _, _, _, hdata, hvalid⟩ :=
+      mkField_arr f.mesh f.nvdim (f.data.map fn) _ _ (some f.valid) _ _ g hr
+        (by intro v hv; injection hv with hv; subst hv; exact hvs) hmk
+    refine ⟨⟨hwf, by rw [hm]; exact hn, ?_⟩, hm, hnv⟩
+    intro i hi
+    have hi' : inRange f.mesh.n i = true := by rw [hn]; exact hi
+    refine ⟨?_, ?_⟩
+    · show cellOf g.data i g.nvdim = (cf i).map fn
+      rw [← (hc i hi).1, hnv]
+      unfold cellOf
+      rw [tab_map]
+      apply tab_congr
+      intro c hcc
+      have hidx : inRange (f.mesh.n ++ [f.nvdim]) (i ++ [c]) = true := by
+        rw [inRange_append_single]; exact ⟨hi', hcc⟩
+      rw [hdata _ hidx]
+      show fn (f.data.get (bproj f.data.shape (i ++ [c]))) = _
+      rw [hs, bproj_inRange _ _ hidx]
+    · rw [hvalid i hi', ← (hc i hi).2]; rfl
 
 /-! ## `_apply_operator` -/
 
